@@ -123,8 +123,9 @@ pub fn gen_case(tier: Tier, master: u64, i: u64) -> Case {
         }
         "entrybuf" | "cursor" | "tree" | "clones" | "abbrevcache" => {
             c.note = "asm".into();
-            if rng.chance(1, 3) {
-                if let Some(m) = wl::writer::dwarf_sections(&mut rng, be, asz as u8) {
+            if rng.chance(1, 3) || (fam == "tree" && rng.bool()) {
+                let m = if fam == "tree" { wl::writer::dwarf_sections_bushy(&mut rng, be, asz as u8) } else { wl::writer::dwarf_sections(&mut rng, be, asz as u8) };
+                if let Some(m) = m {
                     for (k, v) in m {
                         c.put(&k, v);
                     }
@@ -151,6 +152,11 @@ pub fn gen_case(tier: Tier, master: u64, i: u64) -> Case {
                 c.put("debug_names", asm::names(&mut rng, be).0);
                 let p = wl::expr::EncParams { be, addr_size: asz as u8, d64: false, version: 4 };
                 c.put("expr", wl::expr::encode(&wl::expr::random_program(&mut rng, 10, &p), &p));
+            }
+            if fam == "abbrevcache" {
+                // a second, different abbreviation section to swap in between populates
+                let (ab2, _, _) = asm::info(&mut rng, be, asz as u8);
+                c.put("debug_abbrev_alt", ab2);
             }
             if rng.chance(1, 5) {
                 let mut v = c.sec("debug_info").to_vec();
@@ -366,10 +372,60 @@ fn walk<R: Reader<Offset = usize>>(ctx: &mut Ctx<'_>, node: EntriesTreeNode<'_, 
     }
 }
 
+/// The offsets of the root's children and grandchildren, as its iterators yield them while
+/// (mode != 0) each child's and grandchild's own iterator is driven a mode-chosen number of
+/// steps and then dropped. None on any error.
+fn tree_kids<R: Reader<Offset = usize>>(ctx: &mut Ctx<'_>, tree: &mut gimli::EntriesTree<'_, R>, mode: u64) -> Option<Vec<(usize, usize)>> {
+    ctx.enter("reuse.tree.history");
+    let root = tree.root().ok()?;
+    let mut out = Vec::new();
+    let mut children = root.children();
+    let mut guard = 0;
+    while let Some(c) = children.next().ok()? {
+        guard += 1;
+        if guard > 4096 {
+            return None;
+        }
+        let off = c.entry().offset().0;
+        out.push((1, off));
+        let mut gc = c.children();
+        while let Some(g) = gc.next().ok()? {
+            let goff = g.entry().offset().0;
+            out.push((2, goff));
+            guard += 1;
+            if guard > 4096 {
+                return None;
+            }
+            if mode != 0 {
+                // drive the great-grandchildren iterator part of the way, then drop it
+                let take = crate::rng::mix(mode, goff as u64, 3) % 4;
+                let mut ggc = g.children();
+                for _ in 0..take {
+                    match ggc.next().ok()? {
+                        Some(gg) => {
+                            if crate::rng::mix(mode, gg.entry().offset().0 as u64, 5) & 1 == 1 {
+                                let mut deeper = gg.children();
+                                let _ = deeper.next().ok()?;
+                            }
+                        }
+                        None => break,
+                    }
+                }
+            }
+            // even modes: stop looking at this child's children early (the comparison then
+            // covers the root's children only)
+            if mode != 0 && mode % 2 == 0 && crate::rng::mix(mode, goff as u64, 11) % 5 == 0 {
+                break;
+            }
+        }
+    }
+    Some(out)
+}
+
 fn run_info<'a>(case: &'a Case, ctx: &mut Ctx<'_>, mk: &dyn Fn(&'a [u8]) -> FR<'a>) {
     let n = ctx.n_bytes;
     ctx.sim.arm(FaultPlan::None);
-    let dwarf = load_dwarf(mk, case, "");
+    let mut dwarf = load_dwarf(mk, case, "");
     let mut headers = Vec::new();
     let mut it = dwarf.units();
     while let Ok(Some(h)) = it.next() {
@@ -584,18 +640,52 @@ fn run_info<'a>(case: &'a Case, ctx: &mut Ctx<'_>, mk: &dyn Fn(&'a [u8]) -> FR<'
                     return;
                 }
             }
+            // What a node's iterator yields must not depend on how far the iterators of its
+            // children were driven before they were dropped (they all share the tree's cursor).
+            // Only on well-formed units: with an invalid DW_AT_sibling the skipping path and the
+            // scanning path legitimately end in different places.
+            if case.note == "writer" {
+                let sel = case.knob("sel", 0) as u64;
+                let base = tree_kids(ctx, &mut long, 0);
+                for mode in [1 + sel % 97, 101 + (sel >> 8) % 89] {
+                    let got = tree_kids(ctx, &mut long, mode);
+                    if let (Some(a), Some(b)) = (&base, &got) {
+                        ctx.probe("tree_history_compared");
+                        let level1 = |v: &Vec<(usize, usize)>| v.iter().filter(|x| x.0 == 1).cloned().collect::<Vec<_>>();
+                        let (a, b) = if mode % 2 == 0 { (level1(a), level1(b)) } else { (a.clone(), b.clone()) };
+                        if a != b {
+                            ctx.violate(
+                                "c20_tree_history",
+                                format!("children of the root are {:x?} when their subtrees are left alone but {:x?} after partial traversals of them (mode {})", a, b, mode),
+                            );
+                            return;
+                        }
+                    }
+                }
+            }
             ctx.end();
         }
         "abbrevcache" => {
             // histories over cache strategies; queries are fault-free (a cached populate-time
             // result legitimately differs from a faulted fresh parse)
             let mut cached = load_dwarf(mk, case, "");
-            let abbrev = DebugAbbrev::from(mk(case.sec("debug_abbrev")));
+            let mut abbrev = DebugAbbrev::from(mk(case.sec("debug_abbrev")));
+            let mut alt = false;
             for (si, step) in case.steps.iter().enumerate() {
                 ctx.enter("reuse.cache.populate");
-                match step[0] % 4 {
+                match step[0] % 5 {
                     0 => cached.populate_abbreviations_cache(AbbreviationsCacheStrategy::Duplicates),
                     1 => cached.populate_abbreviations_cache(AbbreviationsCacheStrategy::All),
+                    4 => {
+                        // the abbreviation section is replaced (another file's, say) and the cache
+                        // populated again: "any existing cache entries are discarded"
+                        alt = !alt;
+                        let name = if alt { "debug_abbrev_alt" } else { "debug_abbrev" };
+                        abbrev = DebugAbbrev::from(mk(case.sec(name)));
+                        cached.debug_abbrev = abbrev.clone();
+                        dwarf.debug_abbrev = abbrev.clone();
+                        cached.populate_abbreviations_cache(if step[2] % 2 == 0 { AbbreviationsCacheStrategy::Duplicates } else { AbbreviationsCacheStrategy::All });
+                    }
                     2 => {
                         // set(): install the table parsed for one unit's offset
                         let h = &headers[(step[1] as usize) % headers.len()];
@@ -605,6 +695,9 @@ fn run_info<'a>(case: &'a Case, ctx: &mut Ctx<'_>, mk: &dyn Fn(&'a [u8]) -> FR<'
                     }
                     _ => {
                         cached = load_dwarf(mk, case, "");
+                        alt = false;
+                        abbrev = DebugAbbrev::from(mk(case.sec("debug_abbrev")));
+                        dwarf.debug_abbrev = abbrev.clone();
                     }
                 }
                 for h in &headers {
@@ -617,7 +710,7 @@ fn run_info<'a>(case: &'a Case, ctx: &mut Ctx<'_>, mk: &dyn Fn(&'a [u8]) -> FR<'
                     describe_unit(ctx, &dwarf, h);
                     let b = ctx.capture_end();
                     if a != b {
-                        ctx.violate("c20_abbrev_cache", format!("after step {} (op {}): {}", si, step[0] % 4, first_diff(&a, &b)));
+                        ctx.violate("c20_abbrev_cache", format!("after step {} (op {}): {}", si, step[0] % 5, first_diff(&a, &b)));
                         return;
                     }
                 }
